@@ -149,6 +149,31 @@ def extract_operator_semantics(rel, func_names):
     return sorted(set(out))
 
 
+def extract_cpp_print_byte():
+    """printer.hpp print_byte: the `case N: out << "..."` escapes of the switch and the `(x >= lo) && (x <= hi)` range of
+    bytes printed as themselves; everything else is printed as \\xNN"""
+    path = os.path.join(REPO, 'prophy_cpp', 'include', 'prophy', 'detail', 'printer.hpp')
+    src = open(path).read()
+    m = re.search(r'inline\s+void\s+print_byte\s*\([^)]*\)\s*\{(.*?)\n\}', src, re.S)
+    if not m:
+        raise T1Error('print_byte not found in printer.hpp')
+    body = m.group(1)
+    cases = re.findall(r'case\s+(\d+)\s*:\s*out\s*<<\s*"((?:[^"\\]|\\.)*)"\s*;\s*return\s*;', body)
+    if not cases:
+        raise T1Error('no escape cases found in print_byte')
+    if len(re.findall(r'\bcase\b', body)) != len(cases):
+        raise T1Error('unrecognised case label in print_byte')
+    rng = re.search(r'if\s*\(\s*\(\s*x\s*>=\s*(\d+)\s*\)\s*&&\s*\(\s*x\s*<=\s*(\d+)\s*\)\s*\)', body)
+    if not rng:
+        raise T1Error('printable range not found in print_byte')
+    if '"\\\\x"' not in body or 'std::hex' not in body or 'width(2)' not in body:
+        raise T1Error('hex escape of print_byte not recognised')
+
+    def unescape(cstr):
+        return cstr.encode('latin-1').decode('unicode_escape')
+    return [(int(n), unescape(t)) for n, t in cases], int(rng.group(1)), int(rng.group(2))
+
+
 def write_if_changed(name, text):
     os.makedirs(OUT, exist_ok=True)
     path = os.path.join(OUT, name)
@@ -242,7 +267,22 @@ end Prophy.Generated
        pairs_lean(psem), pairs_lean(csem))
     if write_if_changed('Precedence.lean', text):
         changed.append('Precedence.lean')
-    return {'changed': changed, 'tables': ['PyScalars', 'ProphycSizes', 'Precedence']}
+    escapes, lo, hi = extract_cpp_print_byte()
+    text = '''/- GENERATED by harness/t1_extract.py from prophy_cpp/include/prophy/detail/printer.hpp (print_byte).  Do not edit. -/
+namespace Prophy.Generated
+
+/-- the `case N: out << "..."` escapes of print_byte -/
+def cppByteEscapes : List (Nat × String) := [%s]
+
+/-- bytes `lo ≤ x ≤ hi` are printed as themselves; all others as `\\\\xNN` -/
+def cppPrintableLo : Nat := %d
+def cppPrintableHi : Nat := %d
+
+end Prophy.Generated
+''' % (', '.join('(%d, %s)' % (n, lean_str(t)) for n, t in escapes), lo, hi)
+    if write_if_changed('CppPrinter.lean', text):
+        changed.append('CppPrinter.lean')
+    return {'changed': changed, 'tables': ['PyScalars', 'ProphycSizes', 'Precedence', 'CppPrinter']}
 
 
 if __name__ == '__main__':
